@@ -505,7 +505,7 @@ func (ex *Exec) conv(tDst, tSrc types.Type, x Value) Value {
 		if dst.Kind() == types.UnsafePointer {
 			switch v := x.(type) {
 			case *Value:
-				return UnsafePtr{v}
+				return UnsafePtr{P: v}
 			case UnsafePtr:
 				return v
 			case Int:
